@@ -58,6 +58,18 @@ def merge_states(results):
     return acc
 
 
+class _NoFrame(object):
+    """stand-in frame for calls that do not come from a MIR call terminator"""
+
+    class _F(object):
+        def __init__(self, name):
+            self.name = name
+
+    def __init__(self, name):
+        self.fn = _NoFrame._F('<fn item %s>' % name)
+        self.fid = -1
+
+
 class Frame(object):
     __slots__ = ('fn', 'fid')
 
@@ -290,6 +302,8 @@ class Executor(object):
             return ('str', c[1])
         if k == 'zst':
             return ('closure', c[1])
+        if k == 'fnitem':
+            return ('fnitem', c[1])
         if k == 'named':
             m = re.search(r'<impl ([ui](?:8|16|32|64|128|size))>::(MAX|MIN|BITS)$', c[1])
             if m:
@@ -324,6 +338,8 @@ class Executor(object):
             return RefV(root, path)
         if k == 'discr':
             v = self.read_place(fr, rv[1], st)
+            if isinstance(v, S.Term) and v.sort == 8:
+                return S.ZExt(v, 64)   # std::cmp::Ordering produced by the three-way comparison operator
             if not isinstance(v, EnumV):
                 raise Unsupported('discriminant of %r in %s' % (v, fr.fn.name))
             return v.tag
@@ -554,6 +570,14 @@ class Executor(object):
 
     def call_closure(self, cl, argv, st, pc):
         """cl: ('closure', type, captures...) ; argv: the call arguments (not including self)"""
+        if isinstance(cl, RefV):
+            cl = self.models.rd(st, cl)
+        if isinstance(cl, tuple) and cl and cl[0] == 'fnitem':
+            # a function item used as a value (e.g. `.map_err(Self::helper)`, `.and_then(PriceLevel::from_snapshot)`)
+            target = self.resolve(cl[1])
+            if target is not None:
+                return self.call_fn(target, list(argv), st, pc)
+            return self.models.call(self, _NoFrame(cl[1]), cl[1], list(argv), st, pc, None)
         if not (isinstance(cl, tuple) and cl and cl[0] == 'closure'):
             raise Unsupported('not a closure: %r' % (cl,))
         fn = self.crate.closure(cl[1])
